@@ -1000,3 +1000,120 @@ func isFreshAlloc(base ssa.Value) bool {
 	}
 	return false
 }
+
+// ---------------------------------------------------------------- interprocedural helpers (robustness to helper extraction)
+
+// staticCalleesDeep lists module functions statically called from fn, transitively to the given depth (fn excluded).
+func staticCalleesDeep(fn *ssa.Function, depth int) []*ssa.Function {
+	seen := map[*ssa.Function]bool{fn: true}
+	var out []*ssa.Function
+	var walk func(f *ssa.Function, d int)
+	walk = func(f *ssa.Function, d int) {
+		if d < 0 || f.Blocks == nil {
+			return
+		}
+		eachInstr(f, func(_ *ssa.BasicBlock, _ int, in ssa.Instruction) {
+			if _, isGo := in.(*ssa.Go); isGo {
+				return
+			}
+			cc := callOf(in)
+			if cc == nil {
+				return
+			}
+			g := calleeFn(cc)
+			if g == nil {
+				// bound method value called later is not a static call
+				return
+			}
+			if g.Synthetic != "" && g.Blocks != nil && !isModFn(g) {
+				// wrapper: look through
+				if !seen[g] {
+					seen[g] = true
+					walk(g, d)
+				}
+				return
+			}
+			if !isModFn(g) || seen[g] {
+				return
+			}
+			seen[g] = true
+			out = append(out, g)
+			walk(g, d-1)
+		})
+	}
+	walk(fn, depth)
+	return out
+}
+
+// withHelpers returns fn, its closures and the module functions it calls statically (depth 2).
+func withHelpers(fn *ssa.Function) []*ssa.Function {
+	out := withAnon(fn)
+	for _, g := range staticCalleesDeep(fn, 2) {
+		out = append(out, withAnon(g)...)
+	}
+	return out
+}
+
+// derivesIP is derives() that also looks through static calls of module functions: the result of a call derives
+// from whatever the callee's returned values derive from, and a callee parameter derives from the caller's argument.
+func derivesIP(v ssa.Value, pred func(ssa.Value) bool, depth int) bool {
+	type frame struct {
+		call *ssa.Call
+	}
+	seen := map[ssa.Value]bool{}
+	var walk func(v ssa.Value, stack []*ssa.Call, d int) bool
+	walk = func(v ssa.Value, stack []*ssa.Call, d int) bool {
+		if v == nil || seen[v] {
+			return false
+		}
+		seen[v] = true
+		if derives(v, func(y ssa.Value) bool {
+			if pred(y) {
+				return true
+			}
+			switch x := y.(type) {
+			case *ssa.Call:
+				g := calleeFn(x.Common())
+				if g == nil || !isModFn(g) || g.Blocks == nil || d <= 0 {
+					return false
+				}
+				if _, isB := x.Call.Value.(*ssa.Builtin); isB {
+					return false
+				}
+				hit := false
+				eachInstr(g, func(_ *ssa.BasicBlock, _ int, in ssa.Instruction) {
+					if hit {
+						return
+					}
+					if ret, ok := in.(*ssa.Return); ok {
+						for _, r := range returnedValues(ret) {
+							if walk(r, append(stack, x), d-1) {
+								hit = true
+							}
+						}
+					}
+				})
+				return hit
+			case *ssa.Parameter:
+				if len(stack) == 0 {
+					return false
+				}
+				call := stack[len(stack)-1]
+				g := calleeFn(call.Common())
+				if g == nil || x.Parent() != g {
+					return false
+				}
+				idx := paramIndex(g, x)
+				if idx < 0 || idx >= len(call.Call.Args) {
+					return false
+				}
+				return walk(call.Call.Args[idx], stack[:len(stack)-1], d)
+			}
+			return false
+		}) {
+			return true
+		}
+		return false
+	}
+	return walk(v, nil, depth)
+}
